@@ -4,9 +4,15 @@ import gzip
 import pickle
 from dataclasses import dataclass, fields
 from enum import Enum
-from qbee.stmt import Stmt, Block, SubBlock, FunctionBlock
+from qbee.stmt import (
+    Stmt, Block, SubBlock, FunctionBlock,
+    SimpleCaseClause, RangeCaseClause, CompareCaseClause, ElseIfStmt,
+)
 from qbee.node import Node
 from qbee.utils import convert_index_to_line_col
+
+
+CASE_CLAUSES = (SimpleCaseClause, RangeCaseClause, CompareCaseClause)
 
 
 class RoutineType(Enum):
@@ -222,6 +228,44 @@ class DebugInfo:
         # we don't need these anymore
         del self.blocks
         del self.empty_blocks
+
+    def find_resume_range(self, addr, cpu):
+        """The code range of the statement a RESUME / RESUME NEXT for an
+        error at addr refers to: (start, next), or None."""
+        stmt = self.find_stmt(addr, cpu)
+        if stmt is None:
+            return None
+        if isinstance(stmt.node, ElseIfStmt):
+            # the code of an ELSEIF line begins with the jump that ends
+            # the branch before it; evaluating its condition again
+            # starts behind that jump
+            start = stmt.start_offset
+            instr, _, size = cpu.get_instruction_at(start)
+            if instr is not None and instr.op == 'jmp':
+                start += size
+            return start, stmt.end_offset
+        if not isinstance(stmt.node, CASE_CLAUSES):
+            return stmt.start_offset, stmt.end_offset
+
+        # A test on a CASE line is not a statement of its own, it is
+        # part of the CASE statement: RESUME evaluates the tests of that
+        # CASE again, RESUME NEXT goes on with the statement that
+        # follows the CASE line - the first one of its body, which
+        # begins behind the jz that closes the tests.
+        enclosing = [
+            r for r in self.stmts
+            if r.start_offset <= stmt.start_offset and
+            stmt.end_offset <= r.end_offset and
+            not isinstance(r.node, CASE_CLAUSES)
+        ]
+        if not enclosing:
+            return None
+        enclosing.sort(key=lambda r: r.end_offset - r.start_offset)
+        case_stmt = enclosing[0]
+        instr, _, size = cpu.get_instruction_at(case_stmt.end_offset)
+        if instr is None or instr.op != 'jz':
+            return None
+        return case_stmt.start_offset, case_stmt.end_offset + size
 
     def find_stmt(self, addr, cpu):
         # if we're at the beginning of the module code, there should
